@@ -236,7 +236,7 @@ def eval_any(case, rng):
             c = tlssynth.build_conn(tlssynth.Spec(version=0x0303, suite=0x009C, app=[("c", b"hello")]), rng)
             noise.append(scene.tls_on_other_port(c, rng, k))
     items = scene.merge(flows + noise, rng, rng.choice(["random", "bursty", "concat"])) if flows or noise else []
-    fault = rng.choice(["none", "none", "delete", "truncate", "nokeys", "somekeys", "wrongkeys", "flip", "headless"])
+    fault = rng.choice(["none", "none", "delete", "truncate", "nokeys", "somekeys", "wrongkeys", "flip", "headless", "snap"])
     if items and fault == "delete":
         for _ in range(rng.randrange(1, 4)):
             if items:
@@ -245,6 +245,10 @@ def eval_any(case, rng):
         items = items[:rng.randrange(0, len(items) + 1)]
     elif items and fault == "headless":
         items = items[rng.randrange(0, len(items)):]
+    elif items and fault == "snap":
+        # a capture taken with a snap length: every frame ends after n octets whatever its length fields say
+        sn = rng.choice([14, 34, 54, 58, 60, 66, 74, 80, 96, 128, 200, 256, 512, 1024])
+        items = [scene.Item(it.frame[:sn], conn=it.conn, dir=it.dir, ts=it.ts, seg=it.seg, tag=it.tag) for it in items]
     elif items and fault == "flip":
         for _ in range(rng.randrange(1, 4)):
             i = rng.randrange(len(items))
@@ -273,12 +277,18 @@ def eval_any(case, rng):
             else:
                 extra.append(o)
     legacy = rng.random() < 0.15
+    multi = None
     if legacy:
         cap = ns.pcap_legacy([("pkt", it.ts, it.frame) for it in items], le=rng.random() < 0.5)
+    elif rng.random() < 0.15:
+        # a capture of several interfaces: an idle one of another link type (raw IP, Linux cooked, BSD null) described first, or two Ethernet interfaces with their own clocks
+        multi = rng.choice(["idle-first", "idle-first", "two-ethernet"])
+        cap = ns.pcapng_multi([("pkt", it.ts, it.frame) for it in items], [(None, None), (rng.choice([None, 9]), None)], (lambda n: 1) if multi == "idle-first" else (lambda n: n // 3),
+                              le=rng.random() < 0.8, linktypes=[rng.choice([101, 113, 0, 276]), 1] if multi == "idle-first" else None, late_idb=rng.random() < 0.3)
     else:
         cap = scene.capture(items, le=rng.random() < 0.8)
     res, files, argv = e2e.run_capture(cap, keys, extra, legacy=legacy)
-    out = {"cls": ["any", nfl, len(noise), fault, "+".join(opts), "legacy" if legacy else "ng"], "tags": [f"fault:{fault}"] + [f"opt:{o}" for o in opts],
+    out = {"cls": ["any", nfl, len(noise), fault, "+".join(opts), "legacy" if legacy else ("ng-" + multi if multi else "ng")], "tags": [f"fault:{fault}"] + [f"opt:{o}" for o in opts],
            "sample": {"case": case["id"], "flows": [f.label for f in flows], "addresses": pattern, "noise": len(noise), "fault": fault, "args": extra, "packets": len(items), "legacy": legacy}}
     fail = e2e.run_failed(res)
     if fail:
